@@ -252,6 +252,14 @@ Theorem C16_merge_loses_nothing : forall ds,
 Proof. intro ds. split; [apply merge_unfiltered | apply merge_entries]. Qed.
 Print Assumptions C16_merge_loses_nothing.
 
+(* Exactly one merged duty per slot that has a duty, in increasing slot order: duplicated or
+   shuffled entries never produce a second duty for a slot. *)
+Theorem C16_merge_one_duty_per_slot : forall ds,
+  Sorted.StronglySorted N.lt (map md_slot (merge ds)) /\
+  (forall s, In s (map md_slot (merge ds)) <-> In s (map ad_slot ds)).
+Proof. intro ds. split; [apply merge_slots_increasing | apply merge_slots]. Qed.
+Print Assumptions C16_merge_one_duty_per_slot.
+
 (* The fallback for a hostile committee length: that validator alone is skipped; every other
    validator of the duty gets its attestation over its own committee, with its bit set iff its
    position lies inside the committee. *)
@@ -365,6 +373,18 @@ Theorem C16_dynamic_falls_back : forall p f,
   dynamic_graffiti FNotFound None = Ok [[]] /\ dynamic_graffiti FOther None = Err GEFetch.
 Proof. intros p f. split; [apply dynamic_fallback|]. split; reflexivity. Qed.
 Print Assumptions C16_dynamic_falls_back.
+
+(* The whole graffiti chain, from the bytes of the graffiti file to what each beacon node is sent:
+   whichever line is chosen, whatever the nodes call themselves, no panic, 32 bytes each. *)
+Theorem C16_graffiti_chain_no_panic : forall d line ps,
+  In line (graffiti_lines d) ->
+  exists l, graffiti_now (graffiti_of (GBytes line)) ps = Ok l /\ length l = length ps /\
+            Forall (fun x => length x = 32%nat) l.
+Proof.
+  intros d line ps _. destruct (graffiti_now_ok ps (graffiti_of (GBytes line))) as (l & H1 & H2 & H3).
+  exists l. repeat split; try assumption. apply H3. apply graffiti_of_length.
+Qed.
+Print Assumptions C16_graffiti_chain_no_panic.
 
 Example C16_dynamic_example :
   graffiti_lines [97; 13; 10; 13; 10; 98; 10; 10; 10; 99; 10] = [[97]; [98]; []; [99]] /\
